@@ -30,7 +30,13 @@ func GetFilesWithFilter(codeDir string, filter func(path string) bool) []string 
 		return files
 	}
 
-	_ = filepath.Walk(codeDir, func(path string, fi os.FileInfo, err error) error {
+	walkRoot := codeDir
+	if li, err := os.Lstat(codeDir); err == nil && li.Mode()&os.ModeSymlink != 0 {
+		// filepath.Walk does not follow a symbolic link given as its root
+		walkRoot = codeDir + string(os.PathSeparator)
+	}
+
+	_ = filepath.Walk(walkRoot, func(path string, fi os.FileInfo, err error) error {
 		if gitIgnore != nil {
 			// patterns are relative to the directory of the .gitignore, not to the file system root
 			rel, relErr := filepath.Rel(codeDir, path)
